@@ -8,6 +8,8 @@ use std::collections::BTreeMap;
 pub struct Env {
     pub bins: Bins,
     pub thorough: bool,
+    /// end of the search budget: multi-execution scenarios stop enumerating variants after it
+    pub deadline: std::time::Instant,
 }
 
 #[derive(Default)]
@@ -384,6 +386,10 @@ pub fn scenario(id: &str) -> Option<Box<dyn Scenario>> {
             trigger: marker_checked,
             relabel: None,
         }),
+        "C16" => Box::new(DiffScenario),
+        "C07" => Box::new(crate::crash::CrashScenario { mode: crate::crash::Mode::C07 }),
+        "C08" => Box::new(crate::crash::CrashScenario { mode: crate::crash::Mode::C08 }),
+        "C09" => Box::new(crate::crash::CrashScenario { mode: crate::crash::Mode::C09 }),
         "C04" => Box::new(SeqScenario {
             id: "C04",
             opts: |_s| {
@@ -404,3 +410,120 @@ pub fn scenario(id: &str) -> Option<Box<dyn Scenario>> {
 }
 
 pub const ALL_IDS: &[&str] = &["C01", "C02", "C03", "C04", "C06", "C15", "C17"];
+
+// ---------------------------------------------------------------------------
+// C16: the same plan once per backend, separate processes, identical logical schedule
+// ---------------------------------------------------------------------------
+pub struct DiffScenario;
+
+fn with_backend(plan: &Plan, b: &str) -> Plan {
+    let mut p = plan.clone();
+    for inc in p.incarnations.iter_mut() {
+        inc.backend = b.into();
+    }
+    p
+}
+
+fn transcript(rr: &RunResult) -> Vec<(usize, u32, Res)> {
+    let mut v = Vec::new();
+    for (i, inc) in rr.incs.iter().enumerate() {
+        for e in &inc.events {
+            if e.t == "ret" {
+                if let (Some(op), Some(res)) = (e.op, e.res.clone()) {
+                    v.push((i, op, res));
+                }
+            }
+        }
+    }
+    v
+}
+
+pub fn judge_diff(plan: &Plan, a: &RunResult, b: &RunResult) -> Vec<Finding> {
+    let ops = index_ops(plan);
+    let (ta, tb) = (transcript(a), transcript(b));
+    let mut out = Vec::new();
+    for (x, y) in ta.iter().zip(tb.iter()) {
+        let same = x.0 == y.0 && x.1 == y.1 && x.2.k == y.2.k && x.2.err_kind == y.2.err_kind && x.2.entries == y.2.entries && x.2.none == y.2.none && x.2.val == y.2.val && x.2.flag == y.2.flag && x.2.map == y.2.map;
+        if !same {
+            let api = ops.get(&x.1).map(|o| api_name(&o.kind)).unwrap_or("?");
+            out.push(
+                Finding::new(
+                    "c16.diff",
+                    x.0,
+                    x.1,
+                    format!(
+                        "op {} ({}) differs between backends: fd -> {} {:?} entries={:?} none={:?} val={:?}; mmap -> {} {:?} entries={:?} none={:?} val={:?}",
+                        x.1, api, x.2.k, x.2.err_kind, x.2.entries.iter().take(4).map(|s| (s.0, s.2)).collect::<Vec<_>>(), x.2.none, x.2.val,
+                        y.2.k, y.2.err_kind, y.2.entries.iter().take(4).map(|s| (s.0, s.2)).collect::<Vec<_>>(), y.2.none, y.2.val
+                    ),
+                )
+                .fact("api", serde_json::json!(api))
+                .fact("fd_kind", serde_json::json!(x.2.k))
+                .fact("mmap_kind", serde_json::json!(y.2.k)),
+            );
+            return out;
+        }
+    }
+    if ta.len() != tb.len() || a.incs.len() != b.incs.len() {
+        out.push(Finding::new("c16.diff", 0, 0, format!("transcripts differ in length: fd {} returns / {} incarnations, mmap {} / {}", ta.len(), a.incs.len(), tb.len(), b.incs.len())));
+    }
+    for (i, (x, y)) in a.incs.iter().zip(b.incs.iter()).enumerate() {
+        if x.exit != y.exit {
+            out.push(Finding::new("c16.diff", i, 0, format!("incarnation {} ended differently: fd {:?}, mmap {:?}", i, x.exit, y.exit)));
+            break;
+        }
+    }
+    out
+}
+
+fn diff_opts(s: u64) -> SeqOpts {
+    let mut o = SeqOpts::base("C16", "diff");
+    o.w = [30, 14, 16, 18, 6, 4, 3, 3, 5, 2];
+    o.incarnations = (1, 3);
+    o.p_same_process_restart = if s % 3 == 0 { 0.04 } else { 0.0 };
+    o.prio_sched = true;
+    o.fixed_backend = Some("fd");
+    o.ops = (5, 80);
+    o
+}
+
+impl Scenario for DiffScenario {
+    fn id(&self) -> &'static str {
+        "C16"
+    }
+    fn rule_text(&self) -> String {
+        "the same seeded plan (appends, batches, both read APIs, peeks, offset reads, counts, markers, rejected operations, clean restarts) executed once with the FD/io_uring backend and once with the mmap backend in separate processes, single client thread, background threads scheduled only when the client sleeps (identical logical schedule on both sides); oracle: identical sequence of results (Ok/Err kind, entries, counts, flags); distinct = distinct plans; non-trivial = both sides completed at least 3 operations".into()
+    }
+    fn plan_for(&self, seed_r: u64) -> Option<Plan> {
+        Some(gen_seq(seed_r, &diff_opts(seed_r)))
+    }
+    fn run_one(&self, seed_r: u64, env: &Env) -> Outcome {
+        let plan = gen_seq(seed_r, &diff_opts(seed_r));
+        let pa = with_backend(&plan, "fd");
+        let pb = with_backend(&plan, "mmap");
+        let ra = run_plan(&env.bins, &pa, &RunOpts::default());
+        let rb = run_plan(&env.bins, &pb, &RunOpts::default());
+        let mut out = Outcome::default();
+        out.executions = (ra.incs.len() + rb.incs.len()) as u64;
+        out.digest = history_hash(&ra) ^ history_hash(&rb).rotate_left(1);
+        absorb_summary(&mut out, &ra);
+        absorb_summary(&mut out, &rb);
+        out.stat("sim_clock_ms", sim_clock_ms(&ra, &pa) + sim_clock_ms(&rb, &pb));
+        out.stat(&format!("geometry.{}", plan.geometry), 1);
+        if transcript(&ra).len() >= 3 && transcript(&rb).len() >= 3 {
+            out.keys.push(crate::rng::fnv64(serde_json::to_string(&plan.incarnations.iter().map(|i| &i.phases).collect::<Vec<_>>()).unwrap().as_bytes()));
+        }
+        for f in judge_diff(&plan, &ra, &rb) {
+            out.findings.push((plan.clone(), f));
+        }
+        out.sample = Some(render_sample(&plan));
+        out
+    }
+    fn judge_plan(&self, plan: &Plan, env: &Env) -> (Vec<Finding>, u64) {
+        let pa = with_backend(plan, "fd");
+        let pb = with_backend(plan, "mmap");
+        let ra = run_plan(&env.bins, &pa, &RunOpts::default());
+        let rb = run_plan(&env.bins, &pb, &RunOpts::default());
+        (judge_diff(plan, &ra, &rb), history_hash(&ra) ^ history_hash(&rb).rotate_left(1))
+    }
+}
